@@ -300,6 +300,7 @@ func init() {
 		},
 		MaxPar:      16,
 		Cases:       func(r *obs.Run) int { return r.Share(len(c13Items(r))) },
+		Setup:       func(r *obs.Run) { r.WatchDeadlock(5*time.Second, 2*time.Minute) },
 		Case:        c13Case,
 		MinDistinct: func(t string) int { return 500 },
 		Floors: func(string) map[string]int64 {
